@@ -41,7 +41,10 @@ def build(repo, tier):
                     functions=[(TAUT_FILE, 'Tautology.prove_tautology')] + dfn, notes=notes)
 
     def standin(tier, seed):
-        w, n, (ms, nr, dp) = tauto_bounded(repo.root, tier, seed)
+        try:
+            w, n, (ms, nr, dp) = tauto_bounded(repo.root, tier, seed)
+        except Exception as e:           # a time-out of the stand-in is not a verdict
+            return [{'undecided': [('C09/bounded/prover against the truth-table oracle', 'stand-in did not finish: ' + repr(e)[:200])]}]
         viol = []
         if w is not None:
             viol.append({'name': 'C09/bounded/prover against the truth-table oracle', 'status': 'refuted-bounded', 'backend': 'bounded run on the real code', 'model': None,
